@@ -102,6 +102,10 @@ type source struct {
 	hold      *holdState
 	attackArm *armState
 
+	// directed interleaving "source reorganised while a store callback is running": armed
+	// by the controller, taken by the next OpStore listener callback (c06_test.go)
+	cbHook atomic.Pointer[cbHook]
+
 	// one-shot faults: the next BlockByNumber request for exactly the node's current
 	// head height (the request revertTask makes) / the next BlockHeaderLatest request
 	// fails once. Armed by the controller atomically with a reorg, or at random.
@@ -643,6 +647,14 @@ type applied struct {
 	OneShot string `json:"one_shot,omitempty"`
 }
 
+// cbHook: the next OpStore listener callback reports the stored height on entered and
+// stays inside the callback (i.e. inside storeTask, on the serial store pipeline) until
+// release is closed.
+type cbHook struct {
+	entered chan int64
+	release chan struct{}
+}
+
 // armState: a directed hold waiting to be set by the request handler.
 type armState struct {
 	at      uint64 // request count from which on the hold may be set
@@ -764,7 +776,7 @@ func (c *controller) run(ctx context.Context) {
 			c.log = append(c.log, applied{Kind: "sync", LocalAt: s.head.Load().num, OldLen: c.cur.Len(), NewLen: c.cur.Len(), Note: fmt.Sprintf("node at source tip: %v", ok)})
 			continue
 		}
-		if act.Kind != "attack" && !c.src.waitReqs(ctx, act.After) {
+		if act.Kind != "attack" && act.Kind != "cbreorg" && !c.src.waitReqs(ctx, act.After) {
 			return
 		}
 		local := c.src.head.Load().num
@@ -794,6 +806,55 @@ func (c *controller) run(ctx context.Context) {
 				k = replaced + 1 + act.K%5
 			}
 			if err := c.fork(f, k, applied{Kind: "reorg", LocalAt: local, OneShot: act.OneShot}); err != nil {
+				c.err = err
+				return
+			}
+		case "cbreorg":
+			// Directed interleaving: the source replaces a suffix ending at (or below) the block the
+			// node has JUST stored while the synchroniser is still inside that block's store callback
+			// (the announcements of the block have not been made yet). The fetchers notice the reorg
+			// at once; whatever they do about it must not overtake the announcements of the stored
+			// block. Wall-clock grace periods only shape the workload (no verdict depends on them).
+			s := c.src
+			hk := &cbHook{entered: make(chan int64, 1), release: make(chan struct{})}
+			s.cbHook.Store(hk)
+			grace := time.NewTimer(4 * c.grace)
+			var at int64
+			select {
+			case at = <-hk.entered:
+				grace.Stop()
+			case <-grace.C:
+				if s.cbHook.CompareAndSwap(hk, nil) {
+					c.log = append(c.log, applied{Kind: "cbreorg-abandoned", LocalAt: local, OldLen: n, NewLen: n, Note: "no block was stored after the hook was armed"})
+					continue
+				}
+				at = <-hk.entered // the callback took the hook at the last moment
+			case <-ctx.Done():
+				grace.Stop()
+				s.cbHook.CompareAndSwap(hk, nil)
+				return
+			}
+			n = c.cur.Len()
+			f := max(c.minFork, min(int(at)-act.Depth, n-1))
+			replaced := n - f
+			k := replaced
+			switch {
+			case act.LenMode < 0 && replaced > 1:
+				k = 1 + (act.K % (replaced - 1))
+			case act.LenMode > 0:
+				k = replaced + 1 + act.K%3
+			}
+			err := c.fork(f, k, applied{Kind: "reorg-inside-store-callback", LocalAt: at, Note: fmt.Sprintf("node inside the store callback of #%d", at)})
+			if err == nil {
+				// let the fetchers see the new chain before the callback returns
+				done := make(chan bool, 1)
+				wctx, wcancel := context.WithTimeout(ctx, 2*c.grace)
+				go func() { done <- s.waitReqs(wctx, 4+act.K%6) }()
+				<-done
+				wcancel()
+			}
+			close(hk.release)
+			if err != nil {
 				c.err = err
 				return
 			}
